@@ -24,7 +24,12 @@ const regionPrefix = "raft/r/"
 
 func regionKey(id uint64) string { return fmt.Sprintf("%s%020d", regionPrefix, id) }
 
-// kvDump reads every persisted region meta straight from the memory kv (keys raft/r/<id>).
+// kvDump reads every persisted region meta (keys raft/r/<id>): the key list straight from
+// the memory kv, the records back through the storage API (so that they are decrypted).
+// The raw records are examined on the way: with encryption at rest every record carries
+// an encryption meta (together with "reads back as the served meta" this means the stored
+// keys are the cipher text, not the plain keys); without, none does and the raw bytes are
+// the marshalled meta.
 func (f *fixture) kvDump() (map[string]string, error) {
 	keys, vals, err := f.mem.LoadRange(regionPrefix, "raft/r0", 0)
 	if err != nil {
@@ -32,7 +37,29 @@ func (f *fixture) kvDump() (map[string]string, error) {
 	}
 	out := make(map[string]string, len(keys))
 	for i := range keys {
-		out[keys[i]] = vals[i]
+		var raw, m metapb.Region
+		if err := proto.Unmarshal([]byte(vals[i]), &raw); err != nil {
+			return nil, fmt.Errorf("stored record %s is not a region: %v", keys[i], err)
+		}
+		if f.enc > 0 {
+			if em := raw.GetEncryptionMeta(); em == nil || len(em.GetIv()) != 16 || em.GetKeyId() == 0 {
+				return nil, fmt.Errorf("encryption at rest (%s) is on but the stored record of region %d [%q,%q) is not encrypted (meta %v)", encMethods[f.enc], raw.Id, raw.StartKey, raw.EndKey, em)
+			}
+		} else if raw.GetEncryptionMeta() != nil {
+			return nil, fmt.Errorf("encryption at rest is off but the stored record of region %d carries an encryption meta", raw.Id)
+		}
+		ok, err := f.storage.LoadRegion(raw.Id, &m)
+		if err != nil || !ok {
+			return nil, fmt.Errorf("Storage.LoadRegion(%d) = %v, %v although the record exists", raw.Id, ok, err)
+		}
+		b, err := proto.Marshal(&m)
+		if err != nil {
+			return nil, err
+		}
+		if f.enc == 0 && string(b) != vals[i] {
+			return nil, fmt.Errorf("Storage.LoadRegion(%d) returns %s, the raw record is %s", raw.Id, descMeta(string(b)), descMeta(vals[i]))
+		}
+		out[keys[i]] = string(b)
 	}
 	return out, nil
 }
@@ -271,9 +298,16 @@ func runSeq(c Case) (vkit.Info, error) {
 	var info vkit.Info
 	var cls classSet
 	s := simulate(c.Stores, c.Collide, c.Events)
-	f, err := newFixture(s.stores)
+	f, err := newFixture(s.stores, c.Enc)
+	if err == errFixture {
+		info.Inconclusive = true
+		return info, nil
+	}
 	if err != nil {
 		return info, err
+	}
+	if f.enc > 0 {
+		cls.add("encryption-" + encMethods[f.enc])
 	}
 	defer func() { f.close() }()
 	f.fkv.KeepLog = true
